@@ -1093,6 +1093,18 @@ func filterFacts(fn *ssa.Function, at *ssa.BasicBlock, T ssa.Value) (must, may i
 		if i {
 			g |= 2
 		}
+		// the filter has been applied to T only on the edge on which the test says "not an
+		// iterator" (when that polarity can be read off the condition)
+		switch iteratorPolarity(iff.Cond, 0) {
+		case 1: // true means "is an iterator": passed on the false edge
+			if succ == 0 {
+				return 0
+			}
+		case -1:
+			if succ == 1 {
+				return 0
+			}
+		}
 		return g
 	}
 	reach := reachFrom(fn, start)
@@ -1511,4 +1523,48 @@ func c07ScopePushPop(c *Ctx) {
 		}
 	}
 	c.Check(constructed, "scope.pushpop", "hclsyntax.variablesWalker:constructed", pe, "the pushed node type is the one walkChildNodes constructs", fmt.Sprintf("no walkChildNodes method constructs a node of the type %v that Enter pushes a scope for", te))
+}
+
+// iteratorPolarity: +1 if cond being true means "the root name is an iterator name" (x == name,
+// the ok of a lookup in Inherited, a disjunction or phi of such), -1 if it means the opposite,
+// 0 if it cannot be told.
+func iteratorPolarity(cond ssa.Value, d int) int {
+	if d > 6 {
+		return 0
+	}
+	switch x := cond.(type) {
+	case *ssa.UnOp:
+		if x.Op == token.NOT {
+			return -iteratorPolarity(x.X, d+1)
+		}
+	case *ssa.BinOp:
+		switch x.Op {
+		case token.EQL:
+			if isBasicString(x.X.Type()) {
+				return 1
+			}
+		case token.NEQ:
+			if isBasicString(x.X.Type()) {
+				return -1
+			}
+		}
+	case *ssa.Extract:
+		if _, ok := x.Tuple.(*ssa.Lookup); ok && x.Index == 1 {
+			return 1
+		}
+	case *ssa.Phi:
+		pol := 0
+		for _, e := range x.Edges {
+			if _, isConst := e.(*ssa.Const); isConst {
+				continue
+			}
+			p := iteratorPolarity(e, d+1)
+			if p == 0 || (pol != 0 && p != pol) {
+				return 0
+			}
+			pol = p
+		}
+		return pol
+	}
+	return 0
 }
